@@ -246,11 +246,12 @@ package interp
 //@   invariant no-earlier-interface-is-implemented: forall(k, 0, i, !implementsRT(typ, lr[k]))
 //@   canary r == nil
 
-// A method value (w.run passed to the host, started by `go`, deferred, stored in a variable) binds its
+// A method value (w.run passed to the host, started by `go`, deferred — C06: a deferred pointer-receiver
+// method still acts on the variable —, stored in a variable) binds its
 // receiver when it is evaluated: a value receiver is copied at that moment, a pointer receiver keeps
 // designating the variable (Go spec, Method values).
 //@ lit genFunctionWrapper calls:MakeFunc (f) (r)
-//@   props C07 C08
+//@   props C07 C08 C06
 //@   opt safety = off
 //@   opt fn-values = pure
 //@   opt opaque-calls = *
@@ -258,3 +259,16 @@ package interp
 //@   requires [assume] f != nil && def != nil && 0 <= numRet && numRet < len(def.types)
 //@   ensures [local:recv] value-receiver-is-copied-when-the-method-value-is-made: rcvr != nil && def.types[numRet].Kind() != reflect.Ptr ==> fresh(recv) && rvIface(recv) == rvIface(rcvr(f)) && rvInt(recv) == rvInt(rcvr(f))
 //@   ensures [local:recv] pointer-receiver-designates-the-variable: rcvr != nil && def.types[numRet].Kind() == reflect.Ptr ==> recv == rcvr(f)
+
+// valueInterfaceValue (arguments and results that cross to the host: callBin, genValueInterfaceValue): every
+// wrapper the interpreter put around a script value is removed, however many there are — a parameter of
+// script interface type that receives the (already wrapped) result of another call is wrapped twice —, and a
+// value that is not wrapped is returned as it is.
+//@ pred isWrapper(x): assertok_github_com_traefik_yaegi_interp_valueInterface(x)
+//@ func valueInterfaceValue(v) (r)
+//@   props C07
+//@   opt safety = off
+//@   ensures no-interpreter-wrapper-is-left: !isWrapper(rvIface(r))
+//@   ensures a-plain-value-is-returned-as-it-is: !isWrapper(rvIface(old(v))) ==> r == old(v)
+//@   loop 1
+//@   invariant plain-value-untouched: !isWrapper(rvIface(old(v))) ==> v == old(v)
